@@ -45,9 +45,9 @@ var Table = []Entry{
 	{"Ａ", [3]int{2, 2, 2}, "wide"},
 	{"😀", [3]int{2, 2, 2}, "emoji"},
 	{"🔥", [3]int{2, 2, 2}, "emoji"},
-	{"👩‍🚀", [3]int{4, 4, 2}, "zwj"},  // †
+	{"👩‍🚀", [3]int{4, 4, 2}, "zwj"},     // †
 	{"❤️", [3]int{1, 2, 2}, "vs16"},     // †
-	{"👋🏿", [3]int{4, 2, 2}, "modifier"},      // †
+	{"👋🏿", [3]int{4, 2, 2}, "modifier"}, // †
 	{"🇺🇸", [3]int{2, 2, 2}, "flag"},
 }
 
